@@ -891,6 +891,15 @@ def run(ctx: C.Ctx):
     thorough = ctx.tier == "thorough"
     seeds = [0, 1, 2, 3] + ([rng.randrange(4, 2 ** 32 - 1) for _ in range(4)] if thorough else [])
     dist = {}
+    import time as _time
+    _t = [_time.time()]
+    _secs = {}
+
+    def _tick(label):
+        now = _time.time()
+        _secs[label] = round(now - _t[0], 1)
+        _t[0] = now
+    dist["seconds_per_stage(measured, informative)"] = _secs
     shape, shape_detail = promotion_shape()
     dist["promotion_shape_of_the_current_source"] = {"shape": shape, **shape_detail}
 
@@ -898,6 +907,7 @@ def run(ctx: C.Ctx):
     # the first violation reported, with its witness as the replay
     dist["listed_witnesses_replayed"] = replay_fixed_findings(ctx)
 
+    _tick("start")
     # ------------------------------------------------------------------ skeleton programs
     skels = template_programs(rng)
     n_rand = 500 if thorough else 70
@@ -957,6 +967,7 @@ def run(ctx: C.Ctx):
     progs = skels + devs
     sources = [p["src"] for p in progs]
 
+    _tick("generated")
     # ------------------------------------------------------------------ transpile under every seed (one process per seed)
     adv_keys = ["asc", "desc", "k%d" % rng.randrange(10 ** 6)] + (["k%d" % rng.randrange(10 ** 6) for _ in range(3)] if thorough else [])
     variants = [("seed", sd) for sd in seeds] + [("adv", k) for k in adv_keys] + [("env", "other")]
@@ -985,6 +996,7 @@ def run(ctx: C.Ctx):
         if not d["ref"]["ok"]:
             ctx.disagree("generated device program is rejected by the transpiler (generator bug)", d["src"], None, d["ref"])
 
+    _tick("variants transpiled")
     # ------------------------------------------------------------------ property oracle 1: hash seeds
     def report(kind, p, a, b, sa, sb, what):
         # fetch both texts for the replay
@@ -1059,6 +1071,7 @@ def run(ctx: C.Ctx):
         dist["other_interpreters"][py] = {"version": ra.get("python"), "programs_differing_from_the_reference_interpreter": cross,
                                            "(not constrained by the statement, recorded only)": True}
 
+    _tick("hash-seed oracle")
     # ------------------------------------------------------------------ property oracle 2: one process, repeated and interleaved
     guard_idx = [i for i, p in enumerate(progs) if p["in_guard"] and p["ref"]["ok"]]
     all_idx = list(range(len(progs)))
@@ -1101,6 +1114,7 @@ def run(ctx: C.Ctx):
     dist["session_steps"] = len(script)
     dist["fresh_process_samples"] = len(sample)
 
+    _tick("sessions oracle")
     # ------------------------------------------------------------------ correspondence 1: skeleton of parse()+emit() vs Order.transl
     n_corr = 0
     n_promoting = 0
@@ -1153,6 +1167,7 @@ def run(ctx: C.Ctx):
     dist["skeleton_correspondence_cases"] = n_corr
     dist["hoisted_declarations_per_program(capped 8)"] = {str(k): v for k, v in sorted(promoted_sizes.items())}
 
+    _tick("skeleton correspondence")
     # ------------------------------------------------------------------ correspondence 2: the real _promote_branch_decls with dictated orders
     n_prom = 0
     if have_model:
@@ -1260,6 +1275,7 @@ def run(ctx: C.Ctx):
         dist["sorted_site_sizes"] = {w: sorted({len(o) for (dd, ww, o) in back if ww == w}) for w in ("button polls", "ultrasonic helpers", "LCD ticks")}
     dist["sorted_cases"] = n_sorted
 
+    _tick("promote+sorted correspondence")
     # ------------------------------------------------------------------ property oracle 3 + correspondence 4: one NAME, two roles,
     # two programs, one process (every ordered pair of roles; pool sessions; parse/emit interleavings; Lang/DevSession.v fragment)
     from harness.props import c10_roles
@@ -1267,6 +1283,7 @@ def run(ctx: C.Ctx):
     evaluations += ev_roles
     dist["name_collisions"] = dist_roles
 
+    _tick("role collisions")
     # ------------------------------------------------------------------ property oracle 4: twin families (one call in every spelling
     # of the same values / at every depth) in every rotation in one process; correspondence 5: the emitter's literal helpers
     ev_tw, nt_tw, dist_tw = c10_twins.run_twins(ctx, C, seeds[0])
@@ -1277,12 +1294,14 @@ def run(ctx: C.Ctx):
         n_helper, dist_h = c10_twins.run_helper_correspondence(ctx, C, seeds[0])
         dist["emitter_literal_helpers"] = dist_h
 
+    _tick("twin families")
     # ------------------------------------------------------------------ property oracles 5, 6 + correspondences 6, 7: one Program emitted
     # several times (every program above + a corpus reaching every IR node class); sessions that contain REJECTED scripts
     ev_pu, nt_pu, dist_pu = c10_purity.run_purity(ctx, C, seeds[0], have_model, progs)
     evaluations += ev_pu
     dist["emit_purity_and_rejected_parses"] = dist_pu
 
+    _tick("purity")
     feats_total = {}
     for d in devs:
         for k, v in d["feats"].items():
@@ -1301,7 +1320,7 @@ def run(ctx: C.Ctx):
         "evaluations": evaluations + n_corr + n_prom + n_sorted + n_helper,
         "distinct_nontrivial": len({p["src"] for p in progs if p["origin"] != "device"}
                                    & {s["src"] for s in skels if sum(1 for _ in _iter_hoists(s.get("model0", {}))) > 0}) + multi + n_prom + nt_roles + nt_tw + nt_pu,
-        "rule": "skeleton programs: templates (k = 0..6 names first assigned in an if / if-else / if-elif-else / while / for / try body, at top level, in a function, in the main loop, nested) + seeded random nested programs; device programs: random subsets of every device class with 0..6 instances, callbacks, lists, multi-signature functions, tuple swaps; mixed = both. Every program is transpiled in one subprocess per hash seed and per dictated set order (the name `set` of parser.py/emitter.py bound to a subclass iterating sorted / reverse sorted / in a keyed pseudo-random order), then in one process twice in a row, in reverse order between unrelated programs, shuffled, and (a sample) in fresh processes; sha256 of the text is compared. Name collisions (c10_roles.py): for every ordered pair (a, b) of 25 roles an identifier can have, with a name of its own, the sessions `A B B'` / `all A, then B B' reversed` against `B B'` alone (A = name in role a, B = same name in role b with all probes of b, B' = B + one probe of a); 60 (240) pool programs giving 2-4 of 6 pool names random roles, in 3 (6) orders in one process and after a module reset; parse/emit interleavings (p_i p_j e_j e_i, p_i p_j e_i e_j e_i, p_i e_i e_i, p_i t_j e_i); 4 concurrent threads; 220 (900) + 60 device-registry programs of the DevSession fragment in two orders, compared with transl_dev. Half of the random skeleton programs and most templates put several new names into one branch (the region the guard of the repaired finding F-C10-promotion-order used to exclude; counted in distribution). Near-collisions (c10_twins.py): 36 (150) collision programs + 24 (90) skeleton programs whose names are a NAME FAMILY (2-6 identifiers that tie under leading zeros / natural order / case / underscores / length / prefix / first-and-last character keys; every family keeps one pair of its first kind) in 2-7 of the sets behind sorted() (buttons with one callback, LCDs with identical animations, ultrasonics, names first assigned in if / if-else / elif / try / while / for bodies at top level, in a function, in the main loop) - they go through every oracle above; TWIN FAMILIES: for each of 26 device methods every distinct spelling (int, float, bool, folded constants, defaults omitted, all positional) at 2 (7) depths, one spelling at 4 (7) depths on two device names, the call with one argument changed; one pin in several device classes; plain statements with equal-valued literals; one source in 11 white-space / comment / line-end variants - 7 sessions in one process each (rotation r starts every family at its r-th member, odd rotations walk the families backwards), a program's text must be the same in all of them and after a module reset (12 (60) sampled); a difference is confirmed and shrunk in fresh processes. Helper sessions: 30 (120) random + 7 fixed sessions of 2-4 programs of 1-5 calls of _emit_duration_ms / _format_float with ints, whole and fractional dyadic floats, bools, negative values and expression text, one session per module reset, against MemoSession.session under the regenerated cache table. Emit purity (c10_purity.py): every accepted program above + 4 glyph scripts (setup / loop / function / branch) + a break/continue script + the statement catalog of harness/c06_pairs.py in 13 kinds of block (all 65 IR node classes reached, measured): p2 = parse(s); p = parse(s); emit(p); emit(p); emit(parse(other)); emit(p); emit(parse(s)); emit(p2) - one sha256; a failing catalog script is reduced by ddmin; 30 (120) glyph sessions (1-3 scripts, 1-2 displays, rows with bits above 5 / negative / float spellings, random parse/emit op sequences) against EmitSession.esession. Rejected parses: 28 (112) helper families of 14 shapes, each V with 1-2 poisoned twins, sessions V P V P P V | reset | P P V; 14 (112) V's aborted at the quarter (eighth) points and 1 (3) random points of their call sequence by an injected BaseException, then transpiled again; 40 (160) + 3 sessions of 2-5 single-level helper programs (40 % rejected) against VariantSession.vsession. 14 (42) helper programs and 6 (24) glyph scripts also join the main corpus (hash seeds, dictated orders, environments, sessions). Non-trivial = programs that hoist at least one declaration, every twin family, every role pair, pool program and accepted device-registry program, device programs whose sorted sites have >= 2 elements, and every dictated-order promotion case.",
+        "rule": "skeleton programs: templates (k = 0..6 names first assigned in an if / if-else / if-elif-else / while / for / try body, at top level, in a function, in the main loop, nested) + seeded random nested programs; device programs: random subsets of every device class with 0..6 instances, callbacks, lists, multi-signature functions, tuple swaps; mixed = both. Every program is transpiled in one subprocess per hash seed and per dictated set order (the name `set` of parser.py/emitter.py bound to a subclass iterating sorted / reverse sorted / in a keyed pseudo-random order), then in one process twice in a row, in reverse order between unrelated programs, shuffled, and (a sample) in fresh processes; sha256 of the text is compared. Name collisions (c10_roles.py): for every ordered pair (a, b) of 25 roles an identifier can have, with a name of its own, the sessions `A B B'` / `all A, then B B' reversed` against `B B'` alone (A = name in role a, B = same name in role b with all probes of b, B' = B + one probe of a); 60 (240) pool programs giving 2-4 of 6 pool names random roles, in 3 (6) orders in one process and after a module reset; parse/emit interleavings (p_i p_j e_j e_i, p_i p_j e_i e_j e_i, p_i e_i e_i, p_i t_j e_i); 4 concurrent threads; 220 (900) + 60 device-registry programs of the DevSession fragment in two orders, compared with transl_dev. Half of the random skeleton programs and most templates put several new names into one branch (the region the guard of the repaired finding F-C10-promotion-order used to exclude; counted in distribution). Near-collisions (c10_twins.py): 36 (150) collision programs + 24 (90) skeleton programs whose names are a NAME FAMILY (2-6 identifiers that tie under leading zeros / natural order / case / underscores / length / prefix / first-and-last character keys; every family keeps one pair of its first kind) in 2-7 of the sets behind sorted() (buttons with one callback, LCDs with identical animations, ultrasonics, names first assigned in if / if-else / elif / try / while / for bodies at top level, in a function, in the main loop) - they go through every oracle above; TWIN FAMILIES: for each of 26 device methods every distinct spelling (int, float, bool, folded constants, defaults omitted, all positional) at 2 (7) depths, one spelling at 4 (7) depths on two device names, the call with one argument changed; one pin in several device classes; plain statements with equal-valued literals; one source in 11 white-space / comment / line-end variants - 7 sessions in one process each (rotation r starts every family at its r-th member, odd rotations walk the families backwards), a program's text must be the same in all of them and after a module reset (12 (60) sampled); a difference is confirmed and shrunk in fresh processes. Helper sessions: 30 (120) random + 7 fixed sessions of 2-4 programs of 1-5 calls of _emit_duration_ms / _format_float with ints, whole and fractional dyadic floats, bools, negative values and expression text, one session per module reset, against MemoSession.session under the regenerated cache table. Emit purity (c10_purity.py): every accepted program above + 4 glyph scripts (setup / loop / function / branch) + a break/continue script + the statement catalog of harness/c06_pairs.py in 6 (13, twice) kinds of block (all 65 IR node classes reached, measured): p2 = parse(s); p = parse(s); emit(p); emit(p); emit(parse(other)); emit(p); emit(parse(s)); emit(p2) - one sha256; a failing catalog script is reduced by ddmin; 30 (120) glyph sessions (1-3 scripts, 1-2 displays, rows with bits above 5 / negative / float spellings, random parse/emit op sequences) against EmitSession.esession. Rejected parses: 28 (112) helper families of 14 shapes, each V with 1-2 poisoned twins, sessions V P V P P V | reset | P P V; 14 (112) V's aborted at the quarter (eighth) points and 1 (3) random points of their call sequence by an injected BaseException, then transpiled again; 40 (160) + 3 sessions of 2-5 single-level helper programs (40 % rejected) against VariantSession.vsession. 14 (42) helper programs and 6 (24) glyph scripts also join the main corpus (hash seeds, dictated orders, environments, sessions). Non-trivial = programs that hoist at least one declaration, every twin family, every role pair, pool program and accepted device-registry program, device programs whose sorted sites have >= 2 elements, and every dictated-order promotion case.",
         "samples": [skels[0]["src"], skels[len(skels) // 2]["src"], devs[0]["src"][:1500]],
         "distribution": dist,
         "guard": "none: every generated program is under the byte-identity oracle and the correspondence (C10_order_independent is unconditional). F-C10-promotion-order is repaired by a fix: commit (known_findings.d/C10.json kind=fixed) - a fixed entry suppresses nothing: on a tree without the sorted() calls C10_no_unsorted_set_iteration / C10_repaired_sites_sorted do not check, the witness replay fails and is reported as a VIOLATION",
